@@ -1550,7 +1550,14 @@ class Node:
                     continue
                 any_peer_ready = False
                 for app_peer in peers:
-                    if app_peer.connection and app_peer.connection.state in PEER_READY_STATES:
+                    # the registered connection, or any other established
+                    # connection of the peer (e.g. accepted while our own
+                    # connection attempt is still pending)
+                    peer_conns = [app_peer.connection] + [
+                        c for c in self.connections.values()
+                        if c.host_identity == app_peer.node_name]
+                    if any(c and c.state in PEER_READY_STATES
+                           for c in peer_conns):
                         any_peer_ready = True
                         break
                 if not any_peer_ready:
